@@ -8,7 +8,7 @@
 //! Unit level (hook `xls::verif::c16_sheet_metadata`): all 65 536 (hsState, dt) byte pairs of BoundSheet8, random
 //! and truncated payloads; the harness also checks that the BoundSheet8 / BrtBundleSh payloads in the files are
 //! exactly the bytes of the Lean encoders the theorems are about (`encbs`, `encbundle`).
-use calamine::{Data, ExcelDateTime, ExcelDateTimeType, HeaderRow, Ods, Reader, SheetType, SheetVisible, Xls, Xlsb, Xlsx};
+use calamine::{Data, ExcelDateTime, ExcelDateTimeType, HeaderRow, Ods, Reader, SheetType, SheetVisible, Xls, XlsOptions, Xlsb, Xlsx};
 use std::io::Cursor;
 use verif_harness::cfbw::{write_cfb, CfbOpts};
 use verif_harness::xlsxw::{self, Ev};
@@ -128,6 +128,8 @@ enum Target {
     RefRel(usize, u32, u32, u8),
     /// 3-D area with relative parts (sheet, r0, c0, r1, c1, flags of the first corner, flags of the second corner)
     AreaRel(usize, u32, u32, u32, u32, u8, u8),
+    /// xlsb: a formula that refers to an EARLIER defined name: `<name j> * k` (PtgName, PtgInt, PtgMul)
+    NameMul(usize, u16),
 }
 
 /// one corner in A1 notation: `$` before an absolute column / row
@@ -177,6 +179,10 @@ struct Case {
     /// 2 = xlsb / xlsx: relationship ids with Latin-1 letters, other BMP and astral characters instead of rIdN
     /// 4 = `with_header_row(..)` is called on the opened reader before anything is read (all formats)
     /// 8 = ods: every table style name is reused by styles of other families (table-column before, table-cell after)
+    /// 16 = xls: opened with `XlsOptions::force_codepage = Some(1251)` while the CodePage record says 1252 and every sheet /
+    ///      defined name is stored 8-bit in windows-1251 bytes (only when all names are ASCII + А..я; impl vs spec only)
+    /// 32 = xlsx: the sheet parts are stored in the archive in reverse tab order
+    /// 64 = xls: dual-format file — a decoy `Book` stream (other sheets, other date system) in front of `Workbook`
     knobs: u8,
     sheets: Vec<LSheet>,
     names: Vec<LName>,
@@ -207,6 +213,7 @@ impl Case {
                     Target::RefErr(s) => format!("E:{s}"),
                     Target::RefRel(s, r, c, f) => format!("r:{s}:{r}:{c}:{f}"),
                     Target::AreaRel(s, a, b, c, d, f0, f1) => format!("a:{s}:{a}:{b}:{c}:{d}:{f0}:{f1}"),
+                    Target::NameMul(j, k) => format!("m:{j}:{k}"),
                 };
                 format!("{}:{}", hex(n.name.as_bytes()), t)
             })
@@ -260,6 +267,7 @@ impl Case {
                     "E" => Target::RefErr(n(2) as usize),
                     "r" => Target::RefRel(n(2) as usize, n(3), n(4), n(5) as u8),
                     "a" => Target::AreaRel(n(2) as usize, n(3), n(4), n(5), n(6), n(7) as u8, n(8) as u8),
+                    "m" => Target::NameMul(n(2) as usize, n(3) as u16),
                     x => panic!("bad target {x}"),
                 };
                 LName { name: utf(f[0]), target }
@@ -299,6 +307,7 @@ impl Case {
             Target::RefErr(s) => format!("{}!#REF!", sh(s)),
             Target::RefRel(s, r, c, f) => format!("{}!{}", sh(s), corner(*r, *c, *f)),
             Target::AreaRel(s, r0, c0, r1, c1, f0, f1) => format!("{}!{}:{}", sh(s), corner(*r0, *c0, *f0), corner(*r1, *c1, *f1)),
+            Target::NameMul(j, k) => format!("{}*{}", self.names[*j].name, k),
         }
     }
 
@@ -421,7 +430,24 @@ fn gen_text_definition(rng: &mut Rng, sheets: &[LSheet]) -> String {
     }
 }
 
+/// a name of ASCII letters and the letters А..я (all of windows-1251's 0xC0..0xFF), 1..=12 characters
+fn gen_cp1251_name(rng: &mut Rng, first_letter: bool) -> String {
+    let n = rng.range(1, 12) as usize;
+    let mut s = String::new();
+    for i in 0..n {
+        let c = match rng.below(3) {
+            0 if !(first_letter && i == 0) => char::from_u32(0x30 + rng.below(10) as u32).unwrap(),
+            0 | 1 => char::from_u32(0x0410 + rng.below(64) as u32).unwrap(),
+            _ => char::from_u32(0x61 + rng.below(26) as u32).unwrap(),
+        };
+        s.push(c);
+    }
+    s
+}
+
 fn gen_case(fmt: Fmt, rng: &mut Rng) -> Case {
+    // xls: a sixth of the cases are read under a forced code page; their names are windows-1251 text
+    let force16 = fmt == Fmt::Xls && rng.chance(1, 6);
     let n_sheets = match rng.below(10) {
         0 => 0,
         1 => 1,
@@ -430,7 +456,7 @@ fn gen_case(fmt: Fmt, rng: &mut Rng) -> Case {
     } as usize;
     let mut sheets: Vec<LSheet> = vec![];
     while sheets.len() < n_sheets {
-        let name = gen_sheet_name(rng, sheets.len());
+        let name = if force16 { gen_cp1251_name(rng, false) } else { gen_sheet_name(rng, sheets.len()) };
         if sheets.iter().any(|s| s.name == name) {
             continue;
         }
@@ -448,7 +474,7 @@ fn gen_case(fmt: Fmt, rng: &mut Rng) -> Case {
     let n_names = if rng.chance(1, 3) { 0 } else { rng.range(0, 10) } as usize;
     let mut names: Vec<LName> = vec![];
     while names.len() < n_names {
-        let name = gen_def_name(rng);
+        let name = if force16 { gen_cp1251_name(rng, true) } else { gen_def_name(rng) };
         if names.iter().any(|n| n.name == name) {
             continue;
         }
@@ -470,7 +496,8 @@ fn gen_case(fmt: Fmt, rng: &mut Rng) -> Case {
                 };
                 // relative parts: the fields hold coordinates (small ones: a 14-bit column field in either format)
                 let maxc_rel = maxc.min(16_383);
-                match rng.below(7) {
+                match if fmt == Fmt::Xlsb && !names.is_empty() && rng.chance(1, 4) { 99 } else { rng.below(7) } {
+                    99 => Target::NameMul(rng.below(names.len() as u64) as usize, rng.range(2, 999) as u16),
                     0 => Target::RefErr(s),
                     1 | 2 => Target::Ref(s, coord(rng, maxr), coord(rng, maxc)),
                     5 => Target::RefRel(s, coord(rng, maxr), coord(rng, maxc_rel), rng.range(1, 3) as u8),
@@ -545,6 +572,15 @@ fn gen_case(fmt: Fmt, rng: &mut Rng) -> Case {
             if fmt == Fmt::Ods && rng.chance(1, 2) {
                 k |= 8;
             }
+            if fmt == Fmt::Xls && force16 {
+                k |= 16;
+            }
+            if fmt == Fmt::Xlsx && rng.chance(1, 2) {
+                k |= 32;
+            }
+            if fmt == Fmt::Xls && rng.chance(1, 4) {
+                k |= 64;
+            }
             k
         },
         sheets,
@@ -556,8 +592,34 @@ fn gen_case(fmt: Fmt, rng: &mut Rng) -> Case {
 // writers: file bytes + the request line for the model
 // ------------------------------------------------------------------------------------------------
 
+/// windows-1251 bytes of a text made of ASCII and the letters А..я (0xC0..0xFF), else None
+fn to_cp1251(t: &str) -> Option<Vec<u8>> {
+    t.chars()
+        .map(|ch| match ch as u32 {
+            c @ 0x20..=0x7E => Some(c as u8),
+            c @ 0x0410..=0x044F => Some((0xC0 + (c - 0x0410)) as u8),
+            _ => None,
+        })
+        .collect()
+}
+
+/// the forced-code-page stage applies: knob 16 and every name has a windows-1251 byte form
+fn forced_cp(c: &Case) -> bool {
+    c.fmt == Fmt::Xls
+        && c.knobs & 16 != 0
+        && c.sheets.iter().all(|s| to_cp1251(&s.name).is_some())
+        && c.names.iter().all(|n| to_cp1251(&n.name).is_some())
+}
+
+/// a byte string as the text whose UTF-16 units are those bytes (what an 8-bit BIFF8 string stores)
+fn bytes_as_units(b: &[u8]) -> String {
+    b.iter().map(|x| *x as char).collect()
+}
+
 struct Built {
     bytes: Vec<u8>,
+    /// `Some(cp)`: open through `Xls::new_with_options` with `force_codepage = Some(cp)`
+    force_codepage: Option<u16>,
     /// request for the model on the workbook-level bytes / events
     request: String,
     /// encoder ties: (driver request, expected reply)
@@ -603,12 +665,18 @@ fn build_xls(c: &Case) -> Built {
     let mut book = xlsw::XlsBook::new();
     book.date1904 = c.date1904;
     book.xfs = vec![0, 14];
+    let forced = forced_cp(c);
+    // under the forced code page every name is stored as its windows-1251 bytes, one byte per character
+    let wname = |n: &str| if forced { bytes_as_units(&to_cp1251(n).unwrap()) } else { n.to_string() };
     if c.quirk == 1 {
         // f1904DateSystem must be 0 or 1 (MS-XLS 2.4.77); 2 is outside the specification
         book.date1904 = false;
         book.globals_head.push((xlsw::DATEMODE, 2u16.to_le_bytes().to_vec()));
     }
-    if !c.plain && rng.chance(1, 4) {
+    if forced {
+        // the record names a valid code page, but not the one the caller knows to be right
+        book.codepage = Some(1252);
+    } else if !c.plain && rng.chance(1, 4) {
         book.codepage = None;
     }
     if !c.plain {
@@ -625,11 +693,11 @@ fn build_xls(c: &Case) -> Built {
         }
     }
     for (i, s) in c.sheets.iter().enumerate() {
-        let mut sh = xlsw::XlsSheet::new(&s.name);
+        let mut sh = xlsw::XlsSheet::new(&wname(&s.name));
         let reserved = if c.plain { 0 } else { (rng.below(4) as u8) << 6 };
         sh.visible = s.vis | reserved;
         sh.kind = s.kind.xls_dt();
-        sh.name_wide = if c.plain { Some(false) } else { None };
+        sh.name_wide = if c.plain || forced { Some(false) } else { None };
         let (r, col, v) = date_cell(i);
         let whole = v.floor() as i32;
         // a double whose low 34 bits are zero (what an RK float can hold), about 100 * v
@@ -659,7 +727,7 @@ fn build_xls(c: &Case) -> Built {
     for n in &c.names {
         let s = match &n.target {
             Target::Ref(s, ..) | Target::Area(s, ..) | Target::RefErr(s) | Target::RefRel(s, ..) | Target::AreaRel(s, ..) => *s,
-            Target::Text(_) => continue,
+            Target::Text(_) | Target::NameMul(..) => continue,
         };
         if !referenced.contains(&s) {
             referenced.push(s);
@@ -704,6 +772,7 @@ fn build_xls(c: &Case) -> Built {
                 rgce.extend_from_slice(&(*r as u16).to_le_bytes());
                 rgce.extend_from_slice(&col_field(*col, *f).to_le_bytes());
             }
+            Target::NameMul(..) => unreachable!("names referring to names are generated for xlsb only"),
             Target::AreaRel(s, r0, c0, r1, c1, f0, f1) => {
                 rgce.push(0x3B + class);
                 rgce.extend_from_slice(&ixti_of(s).to_le_bytes());
@@ -714,7 +783,7 @@ fn build_xls(c: &Case) -> Built {
             }
             Target::Text(_) => unreachable!("text definitions are for xlsx/ods"),
         }
-        book.names.push(xlsw::XlsName { name: n.name.clone(), rgce, name_wide: if c.plain { Some(false) } else { None }, itab: 0 });
+        book.names.push(xlsw::XlsName { name: wname(&n.name), rgce, name_wide: if c.plain || forced { Some(false) } else { None }, itab: 0 });
     }
     if c.knobs & 1 != 0 && c.sheets.len() >= 2 {
         let mut order: Vec<usize> = (0..c.sheets.len()).rev().collect();
@@ -728,7 +797,24 @@ fn build_xls(c: &Case) -> Built {
     if wb.len() >= 4096 || wb.is_empty() {
         opts.sector_size = 512;
     }
-    let bytes = write_cfb(&[(book.stream_name.clone(), wb.clone())], &opts, &mut rng);
+    let bytes = if c.knobs & 64 != 0 {
+        // dual-format file (Excel 97-2003 & 5.0/95): the BIFF5 copy `Book` sits in front of `Workbook` in the directory
+        let mut decoy = xlsw::XlsBook::new();
+        decoy.date1904 = !c.date1904;
+        decoy.xfs = vec![0, 14];
+        let mut dsh = xlsw::XlsSheet::new("Decoy5");
+        dsh.visible = 1;
+        let mut dc = xlsw::XlsCell::new(0, 0, xlsw::CellV::Number(41000.5));
+        dc.xf = 1;
+        dsh.cells.push(dc);
+        decoy.sheets.push(dsh);
+        let dstream = decoy.workbook_stream(&mut rng);
+        opts.dir_shuffle = false;
+        opts.sector_size = 512;
+        write_cfb(&[("Book".to_string(), dstream), (book.stream_name.clone(), wb.clone())], &opts, &mut rng)
+    } else {
+        write_cfb(&[(book.stream_name.clone(), wb.clone())], &opts, &mut rng)
+    };
     // encoder tie: every BoundSheet8 payload of the stream is what the Lean encoder lays out
     let mut ties = vec![];
     let mut pos = 0;
@@ -740,7 +826,7 @@ fn build_xls(c: &Case) -> Built {
         if typ == 0x0085 {
             let off = u32::from_le_bytes([data[0], data[1], data[2], data[3]]);
             let wide = data[7] & 1;
-            let units: Vec<u16> = c.sheets[k].name.encode_utf16().collect();
+            let units: Vec<u16> = wname(&c.sheets[k].name).encode_utf16().collect();
             ties.push((format!("encbs {} {} {} {} {}", off, data[4], data[5], wide, units_hex(&units)), hex(data)));
             k += 1;
         }
@@ -749,7 +835,7 @@ fn build_xls(c: &Case) -> Built {
         }
         pos += 4 + len;
     }
-    Built { bytes, request: format!("xls {}", hex(&wb)), ties }
+    Built { bytes, force_codepage: if forced { Some(1251) } else { None }, request: format!("xls {}", hex(&wb)), ties }
 }
 
 fn build_xlsb(c: &Case) -> Built {
@@ -788,7 +874,7 @@ fn build_xlsb(c: &Case) -> Built {
     for n in &c.names {
         let s = match &n.target {
             Target::Ref(s, ..) | Target::Area(s, ..) | Target::RefErr(s) | Target::RefRel(s, ..) | Target::AreaRel(s, ..) => *s,
-            Target::Text(_) => continue,
+            Target::Text(_) | Target::NameMul(..) => continue,
         };
         if !referenced.contains(&s) {
             referenced.push(s);
@@ -833,6 +919,13 @@ fn build_xlsb(c: &Case) -> Built {
                 rgce.extend_from_slice(&r.to_le_bytes());
                 rgce.extend_from_slice(&col_field(*col, *f).to_le_bytes());
             }
+            Target::NameMul(j, k) => {
+                rgce.push(0x23 + class);
+                rgce.extend_from_slice(&(*j as u32 + 1).to_le_bytes());
+                rgce.push(0x1E);
+                rgce.extend_from_slice(&k.to_le_bytes());
+                rgce.push(0x05);
+            }
             Target::AreaRel(s, r0, c0, r1, c1, f0, f1) => {
                 rgce.push(0x3B + class);
                 rgce.extend_from_slice(&ixti_of(s).to_le_bytes());
@@ -869,7 +962,7 @@ fn build_xlsb(c: &Case) -> Built {
             (format!("encbundle {} {} {} {}", s.vis, i + 1, units_hex(&rel), units_hex(&nm)), hex(&p))
         })
         .collect();
-    Built { bytes, request: format!("xlsb R={} {}", rels.join(","), hex(&wbpart)), ties }
+    Built { bytes, force_codepage: None, request: format!("xlsb R={} {}", rels.join(","), hex(&wbpart)), ties }
 }
 
 fn build_xlsx(c: &Case) -> Built {
@@ -904,6 +997,7 @@ fn build_xlsx(c: &Case) -> Built {
         book.rel_ids = Some((0..c.sheets.len()).map(|i| rel_id(c, i, &mut rng)).collect());
     }
     book.cdata_defined_names = c.cdata;
+    book.sheet_parts_reversed = c.knobs & 32 != 0;
     if c.inert {
         let kv = |k: &str, v: &str| (k.to_string(), v.to_string());
         let q = |n: &str| if c.prefix.is_empty() { n.to_string() } else { format!("{}:{}", c.prefix, n) };
@@ -980,7 +1074,7 @@ fn build_xlsx(c: &Case) -> Built {
     l.pct_swap_string_store = 0;
     let built = book.build(&l);
     let rels: Vec<String> = built.sheet_rels.iter().map(|(i, t)| format!("{}={}", hex(i.as_bytes()), hex(t.as_bytes()))).collect();
-    Built { bytes: built.bytes, request: format!("xlsx R={} {}", rels.join(","), xlsxw::ev_wire(&built.workbook_events)), ties: vec![] }
+    Built { bytes: built.bytes, force_codepage: None, request: format!("xlsx R={} {}", rels.join(","), xlsxw::ev_wire(&built.workbook_events)), ties: vec![] }
 }
 
 fn ev_start(n: &str, a: Vec<(String, String)>) -> Ev {
@@ -1167,7 +1261,7 @@ fn build_ods(c: &Case) -> Built {
     let content = format!("<?xml version=\"1.0\" encoding=\"UTF-8\"?>{}", xlsxw::serialize(&evs, || plain || r2.chance(1, 2)));
     let manifest = odsw::OdsBook::default().manifest_xml();
     let bytes = odsw::zip_parts(&manifest, &content, !c.plain && rng.chance(1, 2));
-    Built { bytes, request: format!("ods {}", xlsxw::ev_wire(&evs)), ties: vec![] }
+    Built { bytes, force_codepage: None, request: format!("ods {}", xlsxw::ev_wire(&evs)), ties: vec![] }
 }
 
 fn build(c: &Case) -> Built {
@@ -1275,27 +1369,93 @@ where
     format!("ok d={} S={} N={}", d, sh.join(","), nm.join(","))
 }
 
-fn run_impl(fmt: Fmt, bytes: &[u8], reconfigure: bool) -> String {
+/// two dumps of the same reader must agree: metadata does not change over a reader's life (after reads, after
+/// `load_merged_regions` / `load_tables`)
+fn stable(a: String, b: String) -> String {
+    if a == b {
+        a
+    } else {
+        format!("unstable: first [{a}] then [{b}]")
+    }
+}
+
+fn run_impl(fmt: Fmt, bytes: &[u8], reconfigure: bool, force_codepage: Option<u16>) -> String {
     let b = bytes.to_vec();
     let r = guarded(move || match fmt {
-        Fmt::Xls => match Xls::new(Cursor::new(b)) {
-            Ok(mut wb) => dump_reader(&mut wb, true, reconfigure),
-            Err(e) => format!("err:{}", err_class(&format!("{e:?}"))),
-        },
+        Fmt::Xls => {
+            let opened = match force_codepage {
+                Some(cp) => {
+                    let mut o = XlsOptions::default();
+                    o.force_codepage = Some(cp);
+                    Xls::new_with_options(Cursor::new(b), o)
+                }
+                None => Xls::new(Cursor::new(b)),
+            };
+            match opened {
+                Ok(mut wb) => {
+                    let a = dump_reader(&mut wb, true, reconfigure);
+                    let b2 = dump_reader(&mut wb, true, false);
+                    stable(a, b2)
+                }
+                Err(e) => format!("err:{}", err_class(&format!("{e:?}"))),
+            }
+        }
         Fmt::Xlsb => match Xlsb::new(Cursor::new(b)) {
-            Ok(mut wb) => dump_reader(&mut wb, true, reconfigure),
+            Ok(mut wb) => {
+                let a = dump_reader(&mut wb, true, reconfigure);
+                let b2 = dump_reader(&mut wb, true, false);
+                stable(a, b2)
+            }
             Err(e) => format!("err:{}", err_class(&format!("{e:?}"))),
         },
         Fmt::Xlsx => match Xlsx::new(Cursor::new(b)) {
-            Ok(mut wb) => dump_reader(&mut wb, true, reconfigure),
+            Ok(mut wb) => {
+                let a = dump_reader(&mut wb, true, reconfigure);
+                let lm = wb.load_merged_regions().map_err(|e| err_class(&format!("{e:?}")));
+                let lt = wb.load_tables().map_err(|e| err_class(&format!("{e:?}")));
+                if lm.is_err() || lt.is_err() {
+                    return format!("err-after-open: load_merged_regions {lm:?} load_tables {lt:?}");
+                }
+                let b2 = dump_reader(&mut wb, true, false);
+                stable(a, b2)
+            }
             Err(e) => format!("err:{}", err_class(&format!("{e:?}"))),
         },
         Fmt::Ods => match Ods::new(Cursor::new(b)) {
-            Ok(mut wb) => dump_reader(&mut wb, false, reconfigure),
+            Ok(mut wb) => {
+                let a = dump_reader(&mut wb, false, reconfigure);
+                let b2 = dump_reader(&mut wb, false, false);
+                stable(a, b2)
+            }
             Err(e) => format!("err:{}", err_class(&format!("{e:?}"))),
         },
     });
     r.unwrap_or_else(|_| "panic".to_string())
+}
+
+/// NUL characters removed from the defined names of a dump (forced single-byte code page on BIFF8 8-bit strings: the
+/// reader zero-extends the bytes before decoding; BoundSheet8 names are cleaned by the reader itself)
+fn strip_nul_names(dump: &str) -> String {
+    if !dump.starts_with("ok ") {
+        return dump.to_string();
+    }
+    let w: Vec<&str> = dump.split(' ').collect();
+    let clean = |h: &str| -> String {
+        if h == "-" {
+            return h.to_string();
+        }
+        let b: Vec<u8> = unhex(h).into_iter().filter(|x| *x != 0).collect();
+        hex(&b)
+    };
+    let names: Vec<String> = w[3][2..]
+        .split(',')
+        .filter(|x| !x.is_empty())
+        .map(|kv| {
+            let (k, v) = kv.split_once('=').unwrap_or((kv, "-"));
+            format!("{}={}", clean(k), clean(v))
+        })
+        .collect();
+    format!("{} {} {} N={}", w[0], w[1], w[2], names.join(","))
 }
 
 /// model reply → the comparable form: paths dropped, `d` blanked when no date cell can show it
@@ -1390,9 +1550,14 @@ fn features(c: &Case, part: &str) -> String {
 
 fn eval(c: &Case, drv: &mut Driver) -> Outcome {
     let built = build(c);
-    let impl_out = run_impl(c.fmt, &built.bytes, c.knobs & 4 != 0);
-    let model_raw = drv.ask(&built.request);
-    let model_out = canon_model(c, &model_raw);
+    let mut impl_out = run_impl(c.fmt, &built.bytes, c.knobs & 4 != 0, built.force_codepage);
+    // forced code page: the model knows code page 1200 only — implementation against the specification alone
+    let model_silent = built.force_codepage.is_some();
+    if model_silent {
+        impl_out = strip_nul_names(&impl_out);
+    }
+    let model_raw = if model_silent { String::new() } else { drv.ask(&built.request) };
+    let model_out = if model_silent { impl_out.clone() } else { canon_model(c, &model_raw) };
     let expect = c.expect();
     let mut fails = vec![];
     for (req, want) in &built.ties {
@@ -1416,14 +1581,59 @@ fn eval(c: &Case, drv: &mut Driver) -> Outcome {
     Outcome { impl_out, model_out, expect, fails }
 }
 
+/// remove the names not in `keep`, then every name whose `NameMul` referent went away; the remaining `NameMul`
+/// indices are remapped
+fn retain_names(names: &[LName], keep: &[bool]) -> Vec<LName> {
+    let mut keep = keep.to_vec();
+    loop {
+        let mut changed = false;
+        for (i, n) in names.iter().enumerate() {
+            if keep[i] {
+                if let Target::NameMul(j, _) = n.target {
+                    if j >= i || !keep[j] {
+                        keep[i] = false;
+                        changed = true;
+                    }
+                }
+            }
+        }
+        if !changed {
+            break;
+        }
+    }
+    let mut new_idx = vec![0usize; names.len()];
+    let mut k = 0;
+    for i in 0..names.len() {
+        new_idx[i] = k;
+        if keep[i] {
+            k += 1;
+        }
+    }
+    names
+        .iter()
+        .enumerate()
+        .filter(|(i, _)| keep[*i])
+        .map(|(_, n)| LName {
+            name: n.name.clone(),
+            target: match n.target {
+                Target::NameMul(j, m) => Target::NameMul(new_idx[j], m),
+                ref t => t.clone(),
+            },
+        })
+        .collect()
+}
+
 fn drop_sheet(c: &Case, i: usize) -> Case {
     let mut d = c.clone();
     d.sheets.remove(i);
     let fix = |s: usize| if s > i { s - 1 } else { s };
-    d.names = c
+    let keep: Vec<bool> = c
         .names
         .iter()
-        .filter(|n| !matches!(&n.target, Target::Ref(s, ..) | Target::Area(s, ..) | Target::RefErr(s) | Target::RefRel(s, ..) | Target::AreaRel(s, ..) if *s == i))
+        .map(|n| !matches!(&n.target, Target::Ref(s, ..) | Target::Area(s, ..) | Target::RefErr(s) | Target::RefRel(s, ..) | Target::AreaRel(s, ..) if *s == i))
+        .collect();
+    d.names = retain_names(&c.names, &keep)
+        .iter()
         .map(|n| LName {
             name: n.name.clone(),
             target: match &n.target {
@@ -1453,7 +1663,8 @@ fn shrink(c: &Case, kind: &str, sig: &str, drv: &mut Driver) -> Case {
         }
         for i in 0..cur.names.len() {
             let mut d = cur.clone();
-            d.names.remove(i);
+            let keep: Vec<bool> = (0..cur.names.len()).map(|k| k != i).collect();
+            d.names = retain_names(&cur.names, &keep);
             cands.push(d);
         }
         for i in 0..cur.sheets.len() {
@@ -1522,7 +1733,7 @@ fn shrink(c: &Case, kind: &str, sig: &str, drv: &mut Driver) -> Case {
             d.inert = false;
             cands.push(d);
         }
-        for bit in [1u8, 2, 4, 8] {
+        for bit in [1u8, 2, 4, 8, 16, 32, 64] {
             if cur.knobs & bit != 0 {
                 let mut d = cur.clone();
                 d.knobs &= !bit;
@@ -1593,7 +1804,7 @@ fn run_case(c: &Case, drv: &mut Driver, rep: &mut Report, from_corpus: bool) {
     if c.ext != 0 {
         rep.count(&format!("xlsx:extLst={}", c.ext));
     }
-    for (bit, what) in [(1u8, "substreams-out-of-tab-order"), (2, "non-ascii-relationship-ids"), (4, "with_header_row-before-reading"), (8, "style-names-reused-across-families")] {
+    for (bit, what) in [(1u8, "substreams-out-of-tab-order"), (2, "non-ascii-relationship-ids"), (4, "with_header_row-before-reading"), (8, "style-names-reused-across-families"), (16, "forced-code-page-1251-vs-record-1252 (impl vs spec only)"), (32, "sheet-parts-in-reverse-archive-order"), (64, "dual-stream-Book-before-Workbook")] {
         if c.knobs & bit != 0 {
             rep.count(&format!("{}:{}", c.fmt.tag(), what));
         }
@@ -1810,6 +2021,27 @@ fn corpus() -> Vec<Case> {
             v.push(c);
         }
     }
+    // third-round seeded changes (C16-m9 … m12)
+    {
+        let mut c = base(Fmt::Xls);
+        c.knobs = 16;
+        c.sheets = vec![sh("Лист1", 0, Kind::Work), sh("Итог", 1, Kind::Work)];
+        c.names = vec![LName { name: "Имя".into(), target: Target::Ref(1, 0, 0) }];
+        v.push(c);
+        let mut c = base(Fmt::Xlsb);
+        c.names = vec![LName { name: "Base".into(), target: Target::Ref(0, 0, 0) }, LName { name: "Total".into(), target: Target::NameMul(0, 2) }];
+        v.push(c);
+        let mut c = base(Fmt::Xlsx);
+        c.knobs = 32;
+        c.sheets = vec![sh("Beta", 0, Kind::Work), sh("Alpha", 1, Kind::Work), sh("Gamma", 0, Kind::Work)];
+        v.push(c);
+        let mut c = base(Fmt::Xls);
+        c.knobs = 64;
+        c.date1904 = true;
+        c.sheets = vec![sh("Real", 0, Kind::Work), sh("Also", 2, Kind::Chart)];
+        c.names = vec![LName { name: "N1".into(), target: Target::Ref(1, 0, 0) }];
+        v.push(c);
+    }
     // D35: a 16-bit Lbl name of two characters was read as one
     let mut c = base(Fmt::Xls);
     c.names = vec![LName { name: "Жы".into(), target: Target::Ref(0, 0, 0) }];
@@ -1859,7 +2091,7 @@ fn main() {
         "C16",
         "one case = one logical workbook (0-12 sheets with unique names of 1-31 UTF-16 units drawn from ASCII, XML specials, Latin-1, BMP and non-BMP characters, \
          excluding the characters Excel forbids in sheet names and NUL, sometimes with a leading U+FEFF; every visibility x kind the format expresses; 0-10 defined names: text for \
-         xlsx/ods, PtgRef3d/PtgArea3d (absolute, and with relative row/column parts rendered without `$`)/PtgRefErr3d for xls/xlsb; both date systems, in every sheet one date-styled cell of every numeric record kind and encoding (xls: NUMBER, RK x4, MULRK, FORMULA; xlsb: BrtCellReal, BrtCellRk x4, BrtFmlaNum; xlsx: number, whole number, formula with cached number), each checked for the flag; xlsx: in half of the cases an extLst with foreign-namespace elements whose local names are workbookPr / definedName / sheet) in half of the xlsx / ods cases inert elements, comments and processing instructions at random positions between the interpreted elements) xls: sheet substreams stored out of tab order; xlsb/xlsx: relationship ids with Latin-1, BMP and astral characters; ods: table style names reused by styles of other families; in a third of the cases with_header_row is called on the opened reader before anything is read) written under a random layout; non-trivial = at \
+         xlsx/ods, PtgRef3d/PtgArea3d (absolute, and with relative row/column parts rendered without `$`)/PtgRefErr3d for xls/xlsb; both date systems, in every sheet one date-styled cell of every numeric record kind and encoding (xls: NUMBER, RK x4, MULRK, FORMULA; xlsb: BrtCellReal, BrtCellRk x4, BrtFmlaNum; xlsx: number, whole number, formula with cached number), each checked for the flag; xlsx: in half of the cases an extLst with foreign-namespace elements whose local names are workbookPr / definedName / sheet) in half of the xlsx / ods cases inert elements, comments and processing instructions at random positions between the interpreted elements) xls: sheet substreams stored out of tab order; xlsb/xlsx: relationship ids with Latin-1, BMP and astral characters; ods: table style names reused by styles of other families; in a third of the cases with_header_row is called on the opened reader before anything is read; a sixth of the xls cases are opened with force_codepage = 1251 against a CodePage record 1252 with 8-bit windows-1251 names — implementation against the oracle only; a quarter of the xls cases are dual-stream files with a decoy Book stream first; xlsx sheet parts in reverse archive order; xlsb names that refer to earlier names; every reader is dumped twice — for xlsx with load_merged_regions / load_tables in between — and the two dumps must agree) written under a random layout; non-trivial = at \
          least one sheet and (several sheets, a defined name, or a non-default visibility/kind); \
          about 4% of the xls / ods cases carry an out-of-specification detail (DATEMODE = 2; a style name defined twice) on which only implementation and model are compared; unit cases = BoundSheet8 payloads (all 65536 hsState x dt byte pairs, random and truncated strings)",
     );
